@@ -1,26 +1,52 @@
 -------------------------------- MODULE Trace_Pull --------------------------------
 (* C03 -- judges the store after every pull attempt of every fault script           *)
 (* (records from harness/server/vf_pull_test.go): final[b] is what is at the final   *)
-(* name of published blob b (absent / good = right SHA-256 / bad), man is what the   *)
-(* name resolves to (absent / old / new / torn).                                    *)
-EXTENDS Integers, Sequences, FiniteSets, TLC, Json, IOUtils
+(* name of published blob b (absent / good = right SHA-256 / bad), part[b] the        *)
+(* download state left for it, man what the name resolves to (absent / old / new /   *)
+(* torn).                                                                            *)
+(* VFBAD: the property is violated on the real store.  VFDRIFT: the real PullModel    *)
+(* did something else than PullCore predicts for this store and these faults (with    *)
+(* the constants of the cfg: the code as it is).                                     *)
+EXTENDS PullCore, Json, IOUtils
 
-VARIABLES l, nbad
+VARIABLES l, nbad, m
 Trace == ndJsonDeserialize(IOEnv.VF_TRACE)
-Range(f) == {f[i] : i \in DOMAIN f}
-Init == l = 1 /\ nbad = 0
+Rng(f) == {f[i] : i \in DOMAIN f}
+Fresh(pre) == [final |-> [b \in Blobs |-> "absent"], part |-> [b \in Blobs |-> NoPart], man |-> (IF pre = "old" THEN "old" ELSE "absent")]
+Init == l = 1 /\ nbad = 0 /\ m = Fresh("none")
 
+FOf(e) == [s \in Slots |-> IF \E x \in Rng(e.fl) : x.slot = s[1] /\ x.b = s[2]
+                            THEN (CHOOSE x \in Rng(e.fl) : x.slot = s[1] /\ x.b = s[2]).f ELSE "ok"]
 Attempt(e) ==
-     (IF e.err = "" /\ (e.man # "new" \/ Range(e.final) # {"good"}) THEN {"success-with-missing-or-corrupt-layer"} ELSE {})
-\cup (IF e.man = "new" /\ Range(e.final) # {"good"} THEN {"name-resolves-to-incomplete-model"} ELSE {})
+     (IF e.err = "" /\ (e.man # "new" \/ Rng(e.final) # {"good"}) THEN {"success-with-missing-or-corrupt-layer"} ELSE {})
+\cup (IF e.man = "new" /\ Rng(e.final) # {"good"} THEN {"name-resolves-to-incomplete-model"} ELSE {})
 \cup (IF e.man = "torn" THEN {"name-resolves-to-unreadable-or-foreign-manifest"} ELSE {})
 \cup (IF e.man = "old" /\ ~e.oldok THEN {"failed-pull-damaged-the-installed-version"} ELSE {})
 \cup (IF e.last /\ e.faults = 0 /\ e.err # "" THEN {"fault-free-retry-does-not-succeed"} ELSE {})
+\* the recorded store as a PullCore store (a part file of a finished or absent download counts as no part)
+ObsPart(e, b) == IF e.part[b].done <= 0 THEN NoPart ELSE [done |-> e.part[b].done, good |-> e.part[b].good]
+Obs(e) == [final |-> [b \in Blobs |-> e.final[b]], part |-> [b \in Blobs |-> ObsPart(e, b)], man |-> e.man]
+Drift(e, p) ==
+     (IF (e.err = "") # (p.outcome = "ok") THEN {"outcome-differs-from-model"} ELSE {})
+\cup (IF Obs(e).final # p.final THEN {"blobs-differ-from-model"} ELSE {})
+\cup (IF Obs(e).part # p.part THEN {"download-state-differs-from-model"} ELSE {})
+\cup (IF e.man # p.man THEN {"manifest-differs-from-model"} ELSE {})
 
 Step == /\ l <= Len(Trace) /\ l' = l + 1
-        /\ LET e == Trace[l]
-               flags == IF e.ev = "attempt" THEN Attempt(e) ELSE IF e.ev = "crash" THEN {"registry-response-crashed-the-server"} ELSE {}
-           IN /\ (flags # {}) => PrintT(<<"VFBAD", l, e.t, flags>>)
-              /\ nbad' = IF flags # {} THEN nbad + 1 ELSE nbad
+        /\ LET e == Trace[l] IN
+             IF e.ev = "reset" THEN m' = Fresh(e.pre) /\ nbad' = nbad
+             ELSE IF e.ev = "attempt" THEN
+                  LET flags == Attempt(e)
+                      p == AttemptResult(m, FOf(e))
+                      d == Drift(e, p) IN
+                  /\ (flags # {}) => PrintT(<<"VFBAD", l, e.t, flags>>)
+                  /\ (d # {}) => PrintT(<<"VFDRIFT", l, e.t, d>>)
+                  /\ nbad' = IF flags # {} THEN nbad + 1 ELSE nbad
+                  \* follow the real store, so that one difference does not cascade
+                  /\ m' = IF e.man \in {"absent", "old", "new"} THEN Obs(e) ELSE [Obs(e) EXCEPT !.man = m.man]
+             ELSE LET flags == IF e.ev = "crash" THEN {"registry-response-crashed-the-server"} ELSE {} IN
+                  /\ (flags # {}) => PrintT(<<"VFBAD", l, e.t, flags>>)
+                  /\ nbad' = IF flags # {} THEN nbad + 1 ELSE nbad
+                  /\ m' = m
 Accepted == TLCGet("stats").diameter = Len(Trace) + 1
 ===============================================================================
